@@ -71,6 +71,10 @@ def z_in(reg, px, py):
     if k == "poly":
         w = z_crossing(px, py, reg[1])
         return (w == 1) if reg[2] else (w == 0)
+    if k == "curved":
+        from oracles import curved
+
+        return curved.z_in_curved(reg, px, py)
     if k == "and":
         return z3.And([z_in(r, px, py) for r in reg[1]])
     if k == "or":
@@ -256,6 +260,10 @@ def x_in(reg, p):
     if k == "poly":
         w = x_crossing(p, reg[1])
         return (w == 1) if reg[2] else (w == 0)
+    if k == "curved":
+        from oracles import curved
+
+        return curved.x_in_curved(reg, p)
     if k == "and":
         return all(x_in(r, p) for r in reg[1])
     if k == "or":
